@@ -820,9 +820,12 @@ class resolution_macro(Macro):
                 
         assert side is not None, "resolution: literal not found"
         
-        # If side is wrong, just swap:
+        # If side is wrong, swap the two clauses, keeping the literals found
+        # (searching again could find a pair on the wrong side again, forever).
         if side == 'right':
-            return self.get_proof_term(arg, [pt2, pt1])
+            pt1, pt2 = pt2, pt1
+            disj1, disj2 = disj2, disj1
+            i, j = j, i
         
         # Move items i and j to the front
         disj1 = [disj1[i]] + disj1[:i] + disj1[i+1:]
